@@ -22,7 +22,7 @@ Trace == ndJsonDeserialize(TraceFile)
 VARIABLES p, phase, expected, pos, bad
 tvars == <<prog, p, phase, expected, pos, bad>>
 
-NoProg == [id |-> 0, types |-> <<>>, funcs |-> <<>>, main |-> [stmts |-> <<>>, fin |-> [k |-> "unit"]]]
+NoProg == [id |-> 0, types |-> <<>>, funcs |-> <<>>, externs |-> <<>>, main |-> [stmts |-> <<>>, fin |-> [k |-> "unit"]]]
 NoRun == [events |-> <<>>, status |-> "ok", result |-> "U"]
 
 Init == prog = NoProg /\ p = 1 /\ phase = "load" /\ expected = NoRun /\ pos = 1 /\ bad = <<>>
